@@ -154,6 +154,38 @@ Proof.
 Qed.
 Print Assumptions timing_bytes_outside_allocations_unchanged.
 
+(** ** the accessor is a pure view of the register files *)
+
+(** no hidden state: whatever wrote the files (the accessor, a scalar- or
+    vector-load reply, the dispatcher, a release), a read returns what the
+    wavefront's own bytes and special registers hold NOW — two states that
+    agree on them give the same answer.  (The answers of the models are values:
+    an answer a caller holds cannot change afterwards, and distinct answers
+    cannot alias; the harness checks this of the real slices by comparing every
+    answer at the end of the history.) *)
+Theorem timing_read_depends_only_on_storage : forall st1 st2 nw w r cnt lane,
+  layout_ok st1 nw -> w < nw ->
+  t_waves st2 w = t_waves st1 w -> t_slen st2 = t_slen st1 -> t_vlen st2 = t_vlen st1 ->
+  t_nsimd st2 = t_nsimd st1 -> t_bpl st2 = t_bpl st1 -> t_sp st2 w = t_sp st1 w ->
+  (forall a, own_s (t_waves st1 w) a -> t_sreg st2 a = t_sreg st1 a) ->
+  (forall a, own_v (t_waves st1 w) (simd (t_waves st1 w)) a ->
+             t_vreg st2 (simd (t_waves st1 w)) a = t_vreg st1 (simd (t_waves st1 w)) a) ->
+  wf_operand (nsgpr (t_waves st1 w)) (nvgpr (t_waves st1 w)) r cnt lane = true ->
+  timing_read_reg st2 w r cnt lane = timing_read_reg st1 w r cnt lane.
+Proof. exact timing_read_only_storage. Qed.
+Print Assumptions timing_read_depends_only_on_storage.
+
+(** a read of s/v registers is literally the bytes of the file at the operand's address *)
+Theorem timing_read_is_view : forall st w i cnt lane,
+  (i * 4 + soff (t_waves st w) + 4 * width cnt <= t_slen st ->
+   timing_read_reg st w (RS i) cnt lane = Some (mem_read (t_sreg st) (i * 4 + soff (t_waves st w)) (4 * width cnt))) /\
+  (simd (t_waves st w) < t_nsimd st ->
+   i * 4 + lane * t_bpl st + voff (t_waves st w) + 4 * width cnt <= t_vlen st ->
+   timing_read_reg st w (RV i) cnt lane =
+   Some (mem_read (t_vreg st (simd (t_waves st w))) (i * 4 + lane * t_bpl st + voff (t_waves st w)) (4 * width cnt))).
+Proof. intros. split; [apply timing_read_is_view_s | apply timing_read_is_view_v]. Qed.
+Print Assumptions timing_read_is_view.
+
 (** ** outside the operand set: exactly which accesses panic, for every state,
     every register designator, RegCount, lane and data length *)
 
@@ -294,8 +326,17 @@ Example demo_release_answers :
   /\ Forall (twf_r (t_waves demo_st) 3) demo_release.
 Proof.
   split; [vm_compute; reflexivity|]. repeat (split; [vm_compute; reflexivity|]).
-  unfold demo_release. repeat constructor; vm_compute; try reflexivity; try discriminate; try (left; reflexivity);
-    try (right; repeat split; try reflexivity; try discriminate; repeat constructor); intuition discriminate.
+  unfold demo_release.
+  repeat (apply Forall_cons;
+          [ split; [vm_compute; reflexivity
+                   | first [ left; reflexivity
+                           | right; unfold wf_acc, wf_access; cbn [a_w a_api a_reg a_cnt a_lane];
+                             split; [vm_compute; reflexivity
+                                    | first [ exact I
+                                            | split; [vm_compute; reflexivity | repeat (constructor; [reflexivity|]); constructor]
+                                            | split; [vm_compute; repeat constructor | vm_compute; reflexivity] ] ] ] ]
+          | ]).
+  apply Forall_nil.
 Qed.
 
 (** the panic predicates on a few accesses of the hostile stream *)
